@@ -111,7 +111,7 @@ pub fn mx_value(rng: &mut Rng, ty: &Ty, allow_null: bool) -> FieldValue {
 }
 
 /// 4..=6 vertices, every property from `mx_value` (`id` = vertex id; on the last vertex every nullable
-/// property is null), 1..=3 `e0` neighbours each, all
+/// property is null, and it is its own first `e0` neighbour), 1..=3 `e0` neighbours each, all
 /// vertices are starting vertices.
 pub fn mx_dataset(rng: &mut Rng, schema: &GenSchema) -> Dataset {
     let n = 4 + rng.below(3);
@@ -134,7 +134,13 @@ pub fn mx_dataset(rng: &mut Rng, schema: &GenSchema) -> Dataset {
     let mut adj = BTreeMap::new();
     for i in 0..n {
         let k = 1 + rng.below(3);
-        adj.insert((i as u32, "e0".to_string()), (0..k).map(|_| rng.below(n) as u32).collect::<Vec<u32>>());
+        let mut nb = (0..k).map(|_| rng.below(n) as u32).collect::<Vec<u32>>();
+        if i + 1 == n {
+            // the all-null vertex is its own first `e0` neighbour: a tag taken on it and used on the neighbour
+            // or inside `e0 @fold` (placements TagEarlier / TagImported) meets the null/null pair as well
+            nb.insert(0, i as u32);
+        }
+        adj.insert((i as u32, "e0".to_string()), nb);
     }
     let mut starts = BTreeMap::new();
     starts.insert("RT0".to_string(), (0..n as u32).collect::<Vec<u32>>());
